@@ -351,7 +351,9 @@ Arguments wop : clear implicits.
    records, whether the records carry a weights / a redshifts field, and whether they equal, bit
    for bit, what the same generator gives when it is the only object *)
 Record mobs := MO { mo_ops : list (op unit); mo_n : nat; mo_w : bool; mo_z : bool; mo_same : bool }.
-Definition op_total (ops : list (op unit)) : nat := nsum (calls (trace ops)).
+(* the records a group of operations hands to its caller: the calls after its last reseed (a direct
+   call, the probe, the pass; for Catalog.from_random the pass, not the k-means probe before it) *)
+Definition op_total (ops : list (op unit)) : nat := nsum (after_last_reseed (trace ops) []).
 
 (* flags: 0 model agrees: the event log of THIS object, in the company of the others and alone,
             is the trace of its own operations (up to repeated reseeds)
